@@ -1381,6 +1381,9 @@ type expr =
 | OptMCall0 of expr * char list
 | OptMCall1 of expr * char list * expr
 | Guard of nat * expr * expr
+| AddAsgC of expr * expr * expr
+| GetC of expr * expr
+| AsgC of expr * expr * expr
 
 val is_triv : expr -> bool
 
@@ -1412,6 +1415,8 @@ val group_sum : expr -> expr
 val rw_addasg_v : char list -> expr -> nat -> expr * nat
 
 val rw_addasg_m : expr -> char list -> expr -> nat -> expr * nat
+
+val rw_addasg_c : expr -> expr -> expr -> nat -> expr * nat
 
 val rw_tpl1 : char list -> expr -> char list -> nat -> expr * nat
 
